@@ -38,6 +38,9 @@ pub struct Cfg {
     /// use of the freed value is observed as such
     #[serde(default)]
     pub keep_going_after_early_destroy: bool,
+    /// input streams store the waker on every poll, also when they return an item (otherwise only when pending)
+    #[serde(default)]
+    pub stream_always_register: bool,
     /// C17: despawn while pool jobs may still be running (gates are opened first, so they all finish)
     #[serde(default)]
     pub despawn_without_quiescence: bool,
@@ -135,6 +138,8 @@ pub enum POp {
     Yield,
     Push { n: u8 },
     Close,
+    /// push one item while an operation of the consuming object is executing (waits for that moment)
+    PushDuring,
 }
 
 #[derive(Clone, Debug, PartialEq, Serialize, Deserialize)]
